@@ -102,6 +102,7 @@ func runCoinswap(run *ev.Run, c int, mode string) {
 		d.pureProbe(tierN(run.Tier, 60000, 1000000))
 	}
 	for b := 0; b < blocks; b++ {
+		restartFromOwnExport(run, r, c, b, blocks)
 		d.touched = map[string]bool{}
 		// the time of the block these intents will run in is drawn first, so that deadlines can be placed exactly at, just
 		// before and just after it; block times carry a sub-second part like real consensus timestamps
